@@ -106,6 +106,9 @@ pub enum EvKind {
     Cap,
     Handler,
     Joiner,
+    /// evaluation of a non-block operand EXPRESSION (`w::mk`): counted (exactly once) and bound to its step, but its position
+    /// relative to the receiver chain is not prescribed by any property (`??` evaluates its operand before the receiver)
+    Mk,
 }
 
 #[derive(Clone, Copy, Debug)]
